@@ -332,11 +332,26 @@ def run_system(case, rng, cls):
     # the same list object re-used for another solve after the boundary data of one side changed (terms built once, loop over BCs)
     kr = int(rng.integers(0, g.nd))
     if not bad and kr not in spec['periodic'] and cond_plain is not None:
-        fr_ = getattr(phi.BCs, SIDES[kr][int(rng.integers(0, 2))])
-        fr_.c = np.asarray(fr_.c) - 0.8 * Ku
+        side_r = SIDES[kr][int(rng.integers(0, 2))]
+        fr_ = getattr(phi.BCs, side_r)
+        bufr = np.array(np.asarray(fr_.c), dtype=float, copy=True) - 0.8 * Ku        # the caller's own array, same shape and dtype as the stored one
+        fr_.c = bufr
+        handover = str(rng.choice(['same-variable', 'same-variable', 'deepcopy', 'buffer-recycled']))
+        cov['reuse_handover:' + handover] = 1
+        if handover == 'deepcopy':
+            # the loop goes on with a deep copy of the variable (checkpoint / parameter study): the pending boundary edit travels with it
+            from copy import deepcopy
+            phi = deepcopy(phi)
         spy_r = SpySolver()
         with np.errstate(all='ignore'):
             pf.solvePDE(phi, term_list, externalsolver=spy_r)
+        if handover == 'buffer-recycled':
+            # the caller refills its array for another purpose and solves again: whatever the variable's boundary conditions are
+            # now (the setter's copy, on this tree), the system solved is the one they define
+            bufr[...] = bufr * 0.3 - 1.1 * Ku
+            spy_r = SpySolver()
+            with np.errstate(all='ignore'):
+                pf.solvePDE(phi, term_list, externalsolver=spy_r)
         Mr, br, xr = spy_r.last
         Msr, bsr = assemble(phi, terms)
         dr = abs(sp.csr_array(Mr) - Msr).toarray()
